@@ -59,22 +59,37 @@ func randMsg(r *rand.Rand) string {
 // block reports are traversal-shaped (DESIGN C07).
 type blockCounter struct{ q, s, r int64 }
 
-// genOp draws one operation. weights: ending events are rare unless wantEnd.
+// numOpKinds is the number of event-sending methods of the channels API (28).
+const numOpKinds = 28
+
+// genOp draws one operation; ending events (Cancel, Error) have endWeight percent.
 func genOp(r *rand.Rand, bc *blockCounter, endWeight int) evOp {
+	if r.Intn(100) < endWeight {
+		return opByKind(r, bc, 26+r.Intn(2))
+	}
+	k := r.Intn(29)
+	switch {
+	case k == 26:
+		k = 1 // Accept twice as likely
+	case k >= 27:
+		k = 6 + r.Intn(3) // block reports more likely
+	}
+	return opByKind(r, bc, k)
+}
+
+// opByKind builds the k-th kind of operation (0..27) with PRNG arguments.
+func opByKind(r *rand.Rand, bc *blockCounter, kind int) evOp {
 	simple := func(name string, code datatransfer.EventCode, f func(cs *channels.Channels, c datatransfer.ChannelID) error) evOp {
 		return evOp{Name: name, Code: code, Do: f}
 	}
-	x := r.Intn(100)
-	if x < endWeight {
-		switch r.Intn(2) {
-		case 0:
-			return simple("Cancel", datatransfer.Cancel, func(cs *channels.Channels, c datatransfer.ChannelID) error { return cs.Cancel(c) })
-		default:
-			m := randMsg(r)
-			return evOp{"Error", datatransfer.Error, m, func(cs *channels.Channels, c datatransfer.ChannelID) error { return cs.Error(c, errors.New(m)) }}
-		}
+	switch kind {
+	case 26:
+		return simple("Cancel", datatransfer.Cancel, func(cs *channels.Channels, c datatransfer.ChannelID) error { return cs.Cancel(c) })
+	case 27:
+		m := randMsg(r)
+		return evOp{"Error", datatransfer.Error, m, func(cs *channels.Channels, c datatransfer.ChannelID) error { return cs.Error(c, errors.New(m)) }}
 	}
-	switch r.Intn(27) {
+	switch kind {
 	case 0:
 		return simple("Open", datatransfer.Open, func(cs *channels.Channels, c datatransfer.ChannelID) error { return cs.Open(c) })
 	case 1:
@@ -90,7 +105,7 @@ func genOp(r *rand.Rand, bc *blockCounter, endWeight int) evOp {
 			return cs.CompleteCleanupOnRestart(c)
 		})
 	case 6, 7, 8:
-		d := r.Intn(3)
+		d := kind - 6
 		uniq := r.Intn(4) != 0
 		size := uint64(r.Intn(1 << 20))
 		var idx int64
